@@ -49,20 +49,21 @@ func (calc *convexHullCalculator) getConvexHull() geom.T {
 	if len(calc.inputPts) == 0 {
 		return nil
 	}
-	if len(calc.inputPts)/calc.stride == 1 {
-		return geom.NewPointFlat(calc.layout, calc.inputPts)
+
+	// Work on the distinct points only (a private copy, so the caller's coordinates are never
+	// reordered): the shape of the result depends on how many distinct points there are.
+	uniquePts := transform.UniqueCoords(calc.layout, comparator{}, calc.inputPts)
+	if len(uniquePts)/calc.stride == 1 {
+		return geom.NewPointFlat(calc.layout, uniquePts)
 	}
-	if len(calc.inputPts)/calc.stride == 2 {
-		return geom.NewLineStringFlat(calc.layout, calc.inputPts)
+	if len(uniquePts)/calc.stride == 2 {
+		return geom.NewLineStringFlat(calc.layout, uniquePts)
 	}
 
-	reducedPts := transform.UniqueCoords(calc.layout, comparator{}, calc.inputPts)
-
-	// use heuristic to reduce points, if large
-	if len(calc.inputPts)/calc.stride > 50 {
-		reducedPts = calc.reduce(calc.inputPts)
+	reducedPts := uniquePts
+	if len(uniquePts)/calc.stride > 50 {
+		reducedPts = calc.reduce(uniquePts)
 	}
-	// sort points for Graham scan.
 	calc.preSort(reducedPts)
 
 	// Use Graham scan to find convex hull.
@@ -177,6 +178,9 @@ func (calc *convexHullCalculator) reduce(inputPts []float64) []float64 {
 	}
 
 	// add points defining polygon
+	// the point-in-ring test needs a closed ring: repeat the first point at the end
+	ring := append(polyPts[:len(polyPts):len(polyPts)], polyPts[:calc.stride]...)
+
 	reducedSet := transform.NewTreeSet(calc.layout, comparator{})
 	for i := 0; i < len(polyPts); i += calc.stride {
 		reducedSet.Insert(polyPts[i : i+calc.stride])
@@ -190,7 +194,7 @@ func (calc *convexHullCalculator) reduce(inputPts []float64) []float64 {
 	 */
 	for i := 0; i < len(inputPts); i += calc.stride {
 		pt := geom.Coord(inputPts[i : i+calc.stride])
-		if !IsPointInRing(calc.layout, pt, polyPts) {
+		if !IsPointInRing(calc.layout, pt, ring) {
 			reducedSet.Insert(pt)
 		}
 	}
@@ -211,7 +215,7 @@ func (calc *convexHullCalculator) padArray3(pts []float64) []float64 {
 		if i < len(pts) {
 			pad[i] = pts[i]
 		} else {
-			pad[i] = pts[0]
+			pad[i] = pts[i%calc.stride]
 		}
 	}
 	return pad
